@@ -80,7 +80,7 @@ def main():
             json.dump(meta, open(os.path.join(dst, "meta.json"), "w"), indent=1, default=str)
     finally:
         sh("git -C /repo worktree remove --force %s" % wt)
-        sh("/venv/bin/python harness/regen.py", cwd=ROOT, env=dict(os.environ, PYTHONPATH="/repo/src/python"))
+        sh("/venv/bin/python harness/regen.py %s" % " ".join(props), cwd=ROOT, env=dict(os.environ, PYTHONPATH="/repo/src/python"))
 
 
 if __name__ == "__main__":
